@@ -136,3 +136,31 @@ func VerifRoot(c *Collection) VerifRootInfo {
 
 // VerifStoreSize returns Store.size (the next write position).
 func VerifStoreSize(s *Store) int64 { return s.getSize() }
+
+// VerifYieldFn, when set, is called at the scheduling points marked verifYield in the
+// package (always outside every lock), so that a test scheduler can interleave goroutines
+// deterministically.
+var VerifYieldFn func(point int)
+
+func verifYield(point int) {
+	if f := VerifYieldFn; f != nil {
+		f(point)
+	}
+}
+
+// Event kinds reported to VerifEventFn.
+const (
+	VerifEvPin     = 1 // rootAddRef returned this version
+	VerifEvPublish = 2 // rootCAS made this version current
+	VerifEvDeath   = 3 // the reference count of this version reached zero
+)
+
+// VerifEventFn, when set, is called (with rootLock held: it must not block) when a
+// version is pinned, published or dies.
+var VerifEventFn func(kind int, version uintptr)
+
+func verifEvent(kind int, r *rootNodeLoc) {
+	if f := VerifEventFn; f != nil {
+		f(kind, uintptr(unsafe.Pointer(r)))
+	}
+}
